@@ -120,7 +120,7 @@ func (w *World) applyBlockToModel(h int64, step *BlockStep, plans []*TxPlan, res
 				issued.Add(issued, m.Reward(v, base))
 			} else {
 				w.Probes.Hit("missed.signature")
-				w.modelMissed(v, h, gov)
+				w.modelMissed(v, h, gov, plans, res)
 			}
 		}
 	}
@@ -206,6 +206,16 @@ func (w *World) applyBlockToModel(h int64, step *BlockStep, plans []*TxPlan, res
 		w.Probes.Hit("gov.params-changed")
 	}
 	m.commitSnapshot(h, blockTime)
+	if os.Getenv("VERIF_DEBUG") == "stake" {
+		w.logf("D gov h=%d seats=%d minVal=%s", h, m.Gov.MaxValidatorCnt, m.Gov.MinValidatorStake)
+		if q, err := w.leader().Query("gov_params", nil, 0); err == nil {
+			w.logf("D govq h=%d %s", h, q.Value)
+		}
+		for _, a := range sortedAddrs(m.Delegs) {
+			d := m.Delegs[a]
+			w.logf("D deleg h=%d %s self=%d total=%d stakes=%d missed=%v", h, a.Hex(), d.Self(), d.Total(), len(d.Stakes), d.Missed)
+		}
+	}
 }
 
 func (m *Model) applyEvidenceAt(v Addr, h int64, probes *Probes) SlashResult {
@@ -225,7 +235,7 @@ func (m *Model) applyEvidenceAt(v Addr, h int64, probes *Probes) SlashResult {
 	return r
 }
 
-func (w *World) modelMissed(v Addr, h int64, gov GovP) {
+func (w *World) modelMissed(v Addr, h int64, gov GovP, plans []*TxPlan, res *BlockResult) {
 	m := w.M
 	d := m.Delegs[v]
 	if d == nil {
@@ -233,6 +243,9 @@ func (w *World) modelMissed(v Addr, h int64, gov GovP) {
 	}
 	sh := h - 1
 	d.Missed = append(d.Missed, sh)
+	if os.Getenv("VERIF_DEBUG") == "stake" {
+		w.logf("D missed %s h=%d missed=%v stakes=%d", v.Hex(), h, d.Missed, len(d.Stakes))
+	}
 	W := gov.SignedBlocksWindow
 	cnt := func(lo int64) int64 {
 		n := int64(0)
@@ -250,7 +263,7 @@ func (w *World) modelMissed(v Addr, h int64, gov GovP) {
 	jail := must
 	if !must && !mustNot {
 		// the window edge is not fixed by the statement: accept what the node did
-		jail = w.implJailed(v, h)
+		jail = w.implJailed(v, h, d, plans, res)
 		w.Probes.Hit("jail.edge-lenient")
 	}
 	if jail {
@@ -262,19 +275,60 @@ func (w *World) modelMissed(v Addr, h int64, gov GovP) {
 	}
 }
 
-// implJailed reads from the leader whether v's stakes were moved to unbonding in block h.
-func (w *World) implJailed(v Addr, h int64) bool {
+// implJailed decides, for the window-edge case the statement leaves open, whether the leader stopped v in
+// the BeginBlock of block h. Read from what block h committed:
+//   - v had bonded stakes when the block started: all of them are unbonding with refund height h + period,
+//     and no transaction of the block released one of them successfully (after a stop those fail);
+//   - v was an empty record (everything forfeited by slashing): the record is gone, or was created afresh
+//     by a staking tx of this block (then it does not carry the mark of the height just missed).
+func (w *World) implJailed(v Addr, h int64, d *MDeleg, plans []*TxPlan, res *BlockResult) bool {
 	_, sc, _, _ := w.leader().App.VerifCtrlers()
+	if len(d.Stakes) == 0 {
+		ds, xerr := sc.VerifDelegateesAt(h)
+		if xerr != nil {
+			return false
+		}
+		for _, nd := range ds {
+			if ToAddr(nd.Addr) != v {
+				continue
+			}
+			if nd.NotSignedHeights != nil {
+				for _, x := range nd.NotSignedHeights.BlockHeights {
+					if x == h-1 {
+						return false
+					}
+				}
+			}
+			return true
+		}
+		return true
+	}
 	fr, xerr := sc.VerifFrozenAt(h)
 	if xerr != nil {
 		return false
 	}
+	frozen := map[string]bool{}
 	for _, s := range fr {
 		if ToAddr(s.To) == v && s.RefundHeight == h+w.M.Gov.LazyRewardBlocks {
-			return true
+			frozen[hex.EncodeToString(s.TxHash)] = true
 		}
 	}
-	return false
+	pre := map[string]bool{}
+	for _, s := range d.Stakes {
+		if !frozen[s.ID] {
+			return false
+		}
+		pre[s.ID] = true
+	}
+	for i, p := range plans {
+		if p.Tx == nil || i >= len(res.DeliverTxs) || res.DeliverTxs[i].Code != 0 || p.Tx.GetType() != trxUnstaking || ToAddr(p.Tx.To) != v {
+			continue
+		}
+		if pl, ok := p.Tx.Payload.(*rtypes.TrxPayloadUnstaking); ok && pre[hex.EncodeToString(pl.TxHash)] {
+			return false
+		}
+	}
+	return true
 }
 
 func mergeGov(cur GovP, opt []byte) (GovP, error) {
@@ -901,6 +955,9 @@ func (w *World) checkEvmShouldFail(h int64, idx int, p *TxPlan, r *abci.Response
 	ref := RefExec(cp, envc, common.BytesToHash(p.Hash), idx, from, to, tx.Nonce, tx.Gas, gov.GasPrice, tx.Amount.ToBig(), data)
 	if ref.Failed {
 		w.Probes.Hit("evm.fail-agreed")
+		// a failed execution still draws on the block's gas pool (what it used stays consumed), so later
+		// contract transactions of the block see the smaller pool in the reference as they do in the node
+		*env.GasPool = gp
 		if ref.VMErr != "" {
 			w.Probes.Hit("evm.revert-or-oog")
 			if !bytes.Equal(r.Data, ref.Ret) && len(ref.Ret) > 0 {
